@@ -438,3 +438,9 @@ Proof.
   - left. exists d, j. auto.
   - right. reflexivity.
 Qed.
+
+Lemma parse_cursor_final s d j : parse s = Ok d j -> j <= length s.
+Proof. pose proof (parse_post s) as H. intro E. rewrite E in H. exact H. Qed.
+
+Lemma parse_total s : (exists d j, parse s = Ok d j) \/ parse s = Throw.
+Proof. destruct (parse_outcome s) as [[d [j [E _]]]|E]; [left; eauto | right; exact E]. Qed.
